@@ -90,8 +90,9 @@ def run_extra(ctx):
                 seen = got
     r2, v2 = run_dates(ctx, rnd, exe)
     r3, v3 = run_reduce(ctx, rnd, exe)
-    runs += r2 + r3
-    violations += v2 + v3
+    r4, v4 = run_axes(ctx, rnd, exe)
+    runs += r2 + r3 + r4
+    violations += v4 + v2 + v3
     return {"runs": runs, "violations": violations[:5],
             "assumptions": ["e2e: the CLI is run on generated files; row order parsed from its piped (snapshot) output",
                             "e2e date: the CLI runs with TZ=UTC (the model of time.Parse assumes time.Local knows no zone names)"]}
@@ -230,6 +231,75 @@ def run_reduce(ctx, rnd, exe):
                         violations.append({"key": "e2e-reduce-order", "cmd": " ".join(cmd[1:]), "data": lines,
                                            "cli_order": got, "spec_order": want, "rc": rc, "stderr": err.decode("utf8", "replace")[-300:]})
                         break
+    return runs, violations
+
+
+def run_axes(ctx, rnd, exe):
+    """`rare table|heatmap|spark --sort-rows M --sort-cols M` with the SAME stateful mode on both axes and keys of
+    different kinds on the two axes (weekday rows x month columns, numbers x weekdays ...): each axis must come out in
+    its own specified order (two BuildSorter calls = two closures); several delivery orders.  Row order is checked for all
+    three commands, column order for `table` (its header prints every column name)."""
+    work = ctx["work"]
+    violations, runs = [], 0
+    pools = [DAYS[:10], MONTHS, ["10", "9", "100", "1.5", "-2", "007"], ["abc", "qef", "zac", "GET", "x10", "b", "B"]]
+    fixed = [(["Thu", "Mon", "Fri", "Tue", "Wed"], ["Jan", "Feb", "Mar", "Apr"], "contextual", "contextual")]
+    nsets = 3 if ctx["tier"] == "quick" else 25
+    for si in range(nsets + len(fixed)):
+        if si < len(fixed):
+            rows, cols, rmode, cmode = fixed[si]
+        else:
+            pr = rnd.pick(pools)
+            pc = rnd.pick([q for q in pools if q is not pr])
+            rows, cols = [], []
+            for _ in range(2 + rnd.intn(5)):
+                k = rnd.pick(pr)
+                if k not in rows:
+                    rows.append(k)
+            for _ in range(2 + rnd.intn(4)):
+                k = rnd.pick(pc)
+                if k not in cols:
+                    cols.append(k)
+            base = rnd.pick(["contextual", "context"])  # `date` on these pools is left to the in-process ops (ParseFormat oracle)
+            rmode = base + rnd.pick(["", "", ":desc", ":reverse"])
+            cmode = base + rnd.pick(["", "", ":desc", ":asc"])
+        want = {}
+        bad = False
+        for axis, keys, mode in (("rows", rows, rmode), ("cols", cols, cmode)):
+            case = "C13 sortspec %s %s %s %s %s ." % (hexs(mode), ";".join(hexs(k) for k in keys), ",".join("1" for _ in keys),
+                                                    ",".join(str(i) for i in range(len(keys))), ",".join("x" for _ in keys))
+            w, ans = driver_order(ctx, case)
+            if w is None:
+                violations.append({"key": "e2e-driver", "case": case, "model": ans})
+                bad = True
+            want[axis] = w
+        if bad:
+            continue
+        for delivery in range(3):
+            lines = ["%s %s" % (c, r) for c in cols for r in rows if rnd.intn(3) > 0]
+            # every key must appear at least once
+            lines += ["%s %s" % (c, rows[rnd.intn(len(rows))]) for c in cols] + ["%s %s" % (cols[rnd.intn(len(cols))], r) for r in rows]
+            for i in range(len(lines) - 1, 0, -1):
+                j = rnd.intn(i + 1)
+                lines[i], lines[j] = lines[j], lines[i]
+            f = os.path.join(work, "e2e-axes.txt")
+            open(f, "w").write("\n".join(lines) + "\n")
+            sub = ["table", "heatmap", "spark"][(delivery + si) % 3]
+            cmd = [exe, "--nocolor", sub, "-m", r"(\S+) (\S+)", "-e", "{$ {1} {2}}", "--sort-rows", rmode, "--sort-cols", cmode,
+                   "--rows", "100", "--cols", "100", "--workers", str(rnd.pick([1, 2, 4])), "--batch", str(rnd.pick([1, 2, 1000])), f]
+            rc, out, err = run(cmd, timeout=120)
+            runs += 1
+            text = out.decode("utf8", "replace").split("\n")
+            got_rows = [l.split()[0] for l in text[1:] if l.split() and l.split()[0] in rows and not l.startswith(" ")]
+            ok = rc == 0 and got_rows == want["rows"]
+            got_cols = None
+            if sub == "table":
+                got_cols = [w for w in (text[0].split() if text else []) if w in cols]
+                ok = ok and got_cols == want["cols"]
+            if not ok:
+                violations.append({"key": "e2e-axes-order", "cmd": " ".join(cmd[1:]), "data": lines, "sort_rows": rmode, "sort_cols": cmode,
+                                   "cli_rows": got_rows, "spec_rows": want["rows"], "cli_cols": got_cols, "spec_cols": want["cols"],
+                                   "rc": rc, "stderr": err.decode("utf8", "replace")[-300:]})
+                break
     return runs, violations
 
 
